@@ -77,16 +77,19 @@ def _root_local_of_key(k):
 
 class PathSens:
     def __init__(self, body, program, track=None, local_crates=("llfree", "llfree_eval", "replay"),
-                 max_states=60000):
+                 max_states=60000, reset_edges=None):
         self.body = body
         self.program = program
         self.local_crates = set(local_crates)
         self.track = track  # optional predicate(callee_name) -> bool for c-facts
         self.max_states = max_states
+        # (from_block, to_block) -> call-site blocks whose status fact is forgotten on that edge
+        self.reset_edges = reset_edges or {}
         self._build_static()
         self.nodes = {}      # node -> index
         self.node_list = []
         self.succs = {}      # node index -> list of (node index, edge label)
+        self.term_envs = {}  # node index -> env after the block's statements (at the terminator)
         self.entry = None
         self.truncated = False
         self._run()
@@ -223,6 +226,10 @@ class PathSens:
     def _learn_call_result(self, env, d, kind, val, depth):
         _, bi, t = d
         name = callee_name(t["callee"])
+        if name is None:
+            if self._tracked_call(t):
+                self._learn(env, ("c", bi), val, depth + 1)
+            return
         rel = STD_REL.get(name)
         if rel is not None and self.track is not None and self.track(name):
             self._learn(env, ("c", bi), val, depth + 1)
@@ -247,7 +254,9 @@ class PathSens:
     def _tracked_call(self, t):
         c = t["callee"]
         if c.get("indirect"):
-            return False
+            # calls through the policy function pointer: remember the verdict per call site
+            ty = self.body.local_ty(t["dest"]["l"])
+            return ty == "Policy" or ty.endswith("::Policy")
         name = callee_name(c)
         if self.track is not None:
             return self.track(name)
@@ -359,6 +368,7 @@ class PathSens:
         t = blk["term"]
         k = t["k"]
         out = []
+        self._term_env_tmp = dict(env)
         if k == "goto":
             out.append((t["target"], env, None))
         elif k == "drop":
@@ -491,7 +501,11 @@ class PathSens:
                 continue
             bi, env = self.node_list[n]
             outs = []
-            for (tb, e2, label) in self._block_transfer(bi, env):
+            transfers = self._block_transfer(bi, env)
+            self.term_envs[n] = self._term_env_tmp
+            for (tb, e2, label) in transfers:
+                for cb in self.reset_edges.get((bi, tb), ()):
+                    e2.pop(("c", cb), None)
                 idx, fresh = self._intern(tb, e2)
                 outs.append((idx, label))
                 if fresh:
@@ -533,8 +547,15 @@ class PathSens:
 
     def ret_discr(self, n):
         """Discriminant of `_0` at a return node (None if unknown)."""
-        env = self.env_of(n)
+        env = self.term_env_of(n)
         return env.get(("d", 0, ()))
+
+    def term_env_of(self, n):
+        """Environment at the terminator of the node's block (after its statements)."""
+        return self.term_envs.get(n, self.node_list[n][1])
+
+    def states_at_term(self, bi):
+        return [(i, self.term_env_of(i)) for i, (b, env) in enumerate(self.node_list) if b == bi]
 
     def preds(self):
         p = {}
